@@ -7,6 +7,16 @@ CFG = {"read": True, "nonnode": False, "extras": True}
 P2 = ("_pre_detach", "_pre_attach")
 
 
+def job_primed_light(states):
+    from . import c04
+
+    t = c04.job_primed("named:light", 3, states, True)
+    for v in t.violations:
+        v["why"] = v["why"].replace("C04:", "C18: LightNodeMixin only:")
+        v["case"]["module"] = "mc.props.c04"
+    return t
+
+
 def run(tier):
     extra = {"kind2": "named", "traps": False, "exporters": False}
     extra_q = dict(extra, queries_after_ops=True)
@@ -45,6 +55,9 @@ def run(tier):
         pool.run([("mc.lockstep", "state_queries", dict(kind="named:light", kind2="named", n=n, states=s, pid="C18", traps_on=False,
                                                          exporters=False)) for s in core.shard(states, core.NPROC * 4)], into=t)
         pool.run([("mc.lockstep", "deep_chain", dict(kind="named:light", kind2="named", pid="C18"))], into=t)
+        # values must be current after any mutation also when only SOME nodes were queried before (stale caches in one mixin)
+        st3 = forest.discover(pool, "named:light", 3, {"read": False, "nonnode": False, "extras": False}, False)
+        pool.run([("mc.props.c18", "job_primed_light", {"states": s_}) for s_ in core.shard(st3, core.NPROC)], into=t)
         shapes = tree.shapes_upto(6 if tier == "quick" else 7, n + 1)
         pool.run([("mc.lockstep", "shape_queries", dict(kind="named:light", kind2="named", shapes=c, pid="C18", traps_on=False,
                                                          exporters=False)) for c in core.chunks(shapes, core.NPROC * 4)], into=t)
